@@ -302,7 +302,9 @@ theorem writeNoCoordAxis_same (p : Bool) (f : AField) (s : St) (fs : FSt) (axis 
   dsimp only
   split
   · exact Same.refl s
-  · exact (netcdfName_same s _).trans (same_add_dim _ _)
+  · split
+    · exact Same.refl s
+    · exact (netcdfName_same s _).trans ⟨rfl, rfl, rfl, rfl, rfl, List.prefix_append _ _⟩
 
 theorem writeAxis_step (p : Bool) (f : AField) (s : St) (fs : FSt) (axis : Nat) (ax : AAxis) :
     Step s (writeAxis p f s fs axis ax).1 := by
